@@ -484,6 +484,9 @@ fn run_check(prop: &str, tier: Tier) -> CheckOut {
                 let (s, v) = sweep::c15::run(tier, "C05");
                 stats.merge(&s);
                 vios.merge(v);
+                let (s, v) = sweep::c05::run(tier);
+                stats.merge(&s);
+                vios.merge(v);
             }
             if prop == "C06" && only != "x" {
                 let (s, v) = sweep::c15::run(tier, "C06");
